@@ -1517,7 +1517,11 @@ aiff_write_header (SF_PRIVATE *psf, int calc_length)
 	/* Header construction complete so write it out. */
 	/* The header must end where the audio data starts : never write a header of another length over existing data. */
 	if (has_data && psf->dataoffset != psf->header.indx)
+	{	/* Nothing was written : put the file back where the caller had it. */
+		if (current > 0)
+			psf_fseek (psf, current, SEEK_SET) ;
 		return psf->error = SFE_INTERNAL ;
+		} ;
 
 	psf_fwrite (psf->header.ptr, psf->header.indx, 1, psf) ;
 
